@@ -62,7 +62,7 @@ func genEdit(r *simkit.Rand, p *simkit.Plan, actor string, id *int64, untracked 
 		p.Ops = append(p.Ops, simkit.Op{Actor: actor, Kind: "problem", S: []string{side, path}})
 	case 7:
 		*id++
-		p.Ops = append(p.Ops, simkit.Op{Actor: actor, Kind: "edit", N: []int64{*id, int64(r.Intn(3) / 2)}, S: []string{side, path}})
+		p.Ops = append(p.Ops, simkit.Op{Actor: actor, Kind: "edit", N: []int64{*id, int64(simkit.Pick(r, []int{0, 0, 1, 2}))}, S: []string{side, path}})
 	case 8:
 		p.Ops = append(p.Ops, simkit.Op{Actor: actor, Kind: "cp", S: []string{side, path, simkit.Pick(r, pathVocabulary)}})
 	case 9:
@@ -140,7 +140,24 @@ func genModel(p *simkit.Plan, r *simkit.Rand, tier string) {
 				p.Ops = append(p.Ops, simkit.Op{Actor: "user", Kind: "unfill", S: []string{simkit.Pick(r, devSides), ""}})
 			}
 		}
-		switch r.Weighted([]int{50, 15, 20}) {
+		wide := 0
+		if !onDisk && !lifecycle {
+			wide = 3
+		}
+		switch r.Weighted([]int{50, 15, 20, wide}) {
+		case 3:
+			// Many changes on one side and a few on the other within one cycle
+			// (an unpacked archive, a branch switch): long change lists.
+			side := simkit.Pick(r, []string{"alpha", "beta"})
+			for k, m := 0, r.Range(9, 18); k < m; k++ {
+				id++
+				p.Ops = append(p.Ops, simkit.Op{Actor: "user", Kind: "put", N: []int64{id, 0}, S: []string{side, fmt.Sprintf("w%d", k)}})
+			}
+			for k := r.Range(1, 3); k > 0; k-- {
+				id++
+				p.Ops = append(p.Ops, simkit.Op{Actor: "user", Kind: "put", N: []int64{id, 0}, S: []string{other(side), fmt.Sprintf("v%d", k)}})
+			}
+			p.Ops = append(p.Ops, simkit.Op{Actor: "client", Kind: "flush", N: []int64{1}})
 		case 0:
 			genEdit(r, p, "user", &id, untracked)
 		case 1:
@@ -282,7 +299,7 @@ func genModel(p *simkit.Plan, r *simkit.Rand, tier string) {
 			case 0:
 				p.Ops = append(p.Ops, simkit.Op{Actor: "user", Kind: "put", N: []int64{id, int64(r.Intn(2))}, S: []string{side, path}})
 			case 1:
-				p.Ops = append(p.Ops, simkit.Op{Actor: "user", Kind: "edit", N: []int64{id, int64(r.Intn(3) / 2)}, S: []string{side, path}})
+				p.Ops = append(p.Ops, simkit.Op{Actor: "user", Kind: "edit", N: []int64{id, int64(simkit.Pick(r, []int{0, 0, 1, 2, 2}))}, S: []string{side, path}})
 			case 2:
 				p.Ops = append(p.Ops, simkit.Op{Actor: "user", Kind: "chmod", S: []string{side, path}})
 			case 3:
@@ -361,6 +378,9 @@ func genModel(p *simkit.Plan, r *simkit.Rand, tier string) {
 		// Converge first, then one root event, then give it time.
 		c["halt_side"] = int64(r.Intn(2))
 		c["halt_kind"] = int64(r.Intn(4)) // 0 delete, 1 replace by file, 2 empty, 3 control: empty both
+		if c["halt_kind"] == 2 && r.Chance(1, 2) {
+			c["halt_peer_shrinks"] = 1
+		}
 		if onDisk && r.Chance(1, 2) {
 			c["halt_midcycle"] = 1
 			c["halt_activity"] = int64(r.Intn(4))
@@ -1144,6 +1164,18 @@ func (h *harness) haltPhase(flush func() error) {
 	twoWay := !h.oneWay()
 	replica := h.mode == core.SynchronizationMode_SynchronizationModeOneWayReplica
 	s.Gate("settle", "root-event")
+	// A scan of the struck side that is under way right now (the endpoint's own
+	// polling scan, parked at one of its system calls) would observe the removal
+	// half-way: part of the tree gone, the root still a directory - to every
+	// observer an ordinary deletion of those entries, which is propagated
+	// rightly. The expectations below are for an event no scan straddles.
+	for _, g := range s.Parked() {
+		if strings.HasPrefix(g, "fs."+side+".") {
+			s.Count("probe.root_event_skipped_scan_in_flight", 1)
+			s.Logf("settle", "a scan of %s is under way (%s): no root event, no expectation", side, g)
+			return
+		}
+	}
 	// (Not for the emptying event: when the transition that is in flight then
 	// creates the new file in the emptied root, the next scan finds a root with
 	// one entry, which no observer can tell from a user who deleted the rest.)
@@ -1164,6 +1196,20 @@ func (h *harness) haltPhase(flush func() error) {
 		h.applyUserOp(simkit.Op{Kind: "rootfile", N: []int64{9999}, S: []string{side, ""}})
 		expectHalt = anc != nil && anc.Kind == core.EntryKind_Directory && (twoWay || side == "alpha" || replica)
 	case 2:
+		if h.plan.C("halt_peer_shrinks") == 1 && rootEntries >= 2 {
+			// In the same cycle the user of the other endpoint deletes all
+			// entries of its root but one, by ordinary deletions: that root is
+			// not emptied, this one is.
+			var names []string
+			for name := range anc.Contents {
+				names = append(names, name)
+			}
+			sort.Strings(names)
+			for _, name := range names[1:] {
+				h.applyUserOp(simkit.Op{Kind: "del", S: []string{other(side), name}})
+			}
+			s.Count("probe.root_emptied_while_peer_shrank_to_one", 1)
+		}
 		h.applyUserOp(simkit.Op{Kind: "rootempty", S: []string{side, ""}})
 		expectHalt = rootEntries >= 2
 	case 3:
@@ -1187,6 +1233,20 @@ func (h *harness) haltPhase(flush func() error) {
 	otherAfter := cloneEntry(h.currentTree(other(side)))
 	h.mu.Unlock()
 	if st == nil {
+		return
+	}
+	h.mu.Lock()
+	staleFirst := h.haltFirstScan == 2
+	h.mu.Unlock()
+	if expectHalt && kind == 2 && h.plan.C("halt_peer_shrinks") == 1 && staleFirst {
+		// The controller first worked from a snapshot of the struck root taken
+		// before it was emptied (an accelerated scan hands out the last polling
+		// snapshot) together with the peer's deletions: it carried those over
+		// first, and by the time it saw the emptied root the last synchronized
+		// state held a single entry. That is the history "the peer deleted, then
+		// a root with one entry was emptied" - two concurrent user actions can be
+		// observed in either order, and in this order the guard does not apply.
+		s.Count("probe.peer_deletions_observed_before_emptying", 1)
 		return
 	}
 	if expectHalt {
